@@ -456,6 +456,8 @@ LITERALS = [
     ("int", "2", "2"), ("int", "-1", "-1"), ("int", "007", "7"), ("int", "0", "0"),
     ("long", "2147483648", "2147483648"), ("long", "-5", "-5"),
     ("double", "2.5", "2.5"), ("double", "1e3", "1000.0"), ("double", "-0.0", "-0.0"), ("double", "3", "3.0"),
+    ("double", ".5", "0.5"), ("double", "5.", "5.0"), ("double", "-.5E1", "-5.0"), ("double", "+5.e3", "5000.0"),
+    ("double", "1.5E-2", "0.015"), ("int", "+5", "5"), ("long", "-0", "0"),
     ("boolean", "true", "True"), ("boolean", "false", "False"), ("boolean", "1", "True"), ("boolean", "0", "False"),
     ("string", "a", "'a'"), ("string", "", "''"), ("string", "1", "'1'"), ("string", " pad ", "' pad '"),
     ("anyURI", "http://c/res", "Identifier('http://c/res')"),
